@@ -22,6 +22,10 @@ Lemma go_names l : forall acc,
 Proof. induction l as [|x l IH]; intros acc; [reflexivity|]. cbn [ast_names]. apply IH. Qed.
 Lemma part_string_named n tail : part_string (RNamed n tail) = "(" ++ ast_string tail ++ ")".
 Proof. cbn [part_string]. now rewrite go_string. Qed.
+Lemma part_string_noncap body : part_string (RNonCap body) = "(?" ++ ast_string body ++ ")".
+Proof. cbn [part_string]. now rewrite go_string. Qed.
+Lemma part_names_noncap body init : part_names (RNonCap body) init = ast_names body init.
+Proof. cbn [part_names]. now rewrite go_names. Qed.
 Lemma part_string_brack body : part_string (RBrack body) = "(" ++ ast_string body ++ ")".
 Proof. cbn [part_string]. now rewrite go_string. Qed.
 Lemma part_names_named n tail init : part_names (RNamed n tail) init = ast_names tail (init ++ [n])%list.
@@ -34,6 +38,7 @@ Fixpoint psize (p : rpart) : nat :=
   match p with
   | RSimple _ => 1
   | RNamed _ tail => S ((fix go (l : list rpart) : nat := match l with [] => 0 | x :: r => psize x + go r end) tail)
+  | RNonCap body => S ((fix go (l : list rpart) : nat := match l with [] => 0 | x :: r => psize x + go r end) body)
   | RBrack body => S ((fix go (l : list rpart) : nat := match l with [] => 0 | x :: r => psize x + go r end) body)
   end.
 Fixpoint asize (l : list rpart) : nat := match l with [] => 0 | x :: r => psize x + asize r end.
@@ -49,10 +54,11 @@ Proof.
   - destruct l as [|x l]; [cbn; now rewrite app_nil_r|]. cbn [asize] in Hn. pose proof (psize_pos x). lia.
   - destruct l as [|x l]; [cbn; now rewrite app_nil_r|]. cbn [asize] in Hn. cbn [ast_names].
     assert (Hx : forall i, part_names x i = (i ++ part_names x [])%list).
-    { intros i. destruct x as [s|nm tail|body].
+    { intros i. destruct x as [s|nm tail|body|body].
       - cbn [part_names]. now rewrite app_nil_r.
       - rewrite !part_names_named. cbn [psize] in Hn. rewrite go_size in Hn.
         rewrite (IH tail (i ++ [nm])%list) by lia. rewrite (IH tail ([] ++ [nm])%list) by lia. now rewrite <- app_assoc.
+      - rewrite !part_names_noncap. cbn [psize] in Hn. rewrite go_size in Hn. apply IH. lia.
       - rewrite !part_names_brack. cbn [psize] in Hn. rewrite go_size in Hn.
         rewrite (IH body (i ++ [""])%list) by lia. rewrite (IH body ([] ++ [""])%list) by lia. now rewrite <- app_assoc. }
     pose proof (psize_pos x).
@@ -90,9 +96,9 @@ Proof.
       destruct (parts f r) as [[ps0 r2]|] eqn:Ep; [|discriminate]. injection H' as <- <-.
       destruct (take_simple_spec _ _ _ Ets) as [H1 H2]. destruct (IH _ _ _ Ep) as [H3 H4].
       rewrite H1, H2, H3, H4. cbn [ast_names ast_string part_names part_string]. split; [reflexivity|now rewrite sapp_assoc]. }
-    destruct t as [| | | |s|s].
+    destruct t as [| | | | |s|s].
     + (* OBrackQ *)
-      destruct ts as [|t1 ts]; [discriminate|]. destruct t1 as [| | | |name|s1]; try discriminate.
+      destruct ts as [|t1 ts]; [discriminate|]. destruct t1 as [| | | | |name|s1]; try discriminate.
       destruct ts as [|t2 ts]; [discriminate|]. destruct t2; try discriminate.
       destruct (parts f ts) as [[tail r1]|] eqn:Ep1; [|discriminate].
       destruct r1 as [|c r2]; [discriminate|]. destruct c; try discriminate.
@@ -102,6 +108,17 @@ Proof.
       cbn [ast_names ast_string]. rewrite part_names_named, part_string_named.
       cbn [app]. rewrite (ast_names_app ps0 (ast_names tail [name])), (ast_names_app tail [name]). split.
       * cbn [app]. now rewrite <- !app_assoc.
+      * cbn [append]. now rewrite !sapp_assoc.
+    + (* OBrackN *)
+      destruct (parts f ts) as [[body r1]|] eqn:Ep1; [|discriminate].
+      destruct r1 as [|c r2]; [discriminate|]. destruct c; try discriminate.
+      destruct body as [|b0 body0]; [discriminate|]. remember (b0 :: body0) as body eqn:Ebody. clear Ebody b0 body0.
+      destruct (parts f r2) as [[ps0 r3]|] eqn:Ep2; [|discriminate]. injection H as <- <-.
+      destruct (IH _ _ _ Ep1) as [H1 H2]. destruct (IH _ _ _ Ep2) as [H3 H4].
+      cbn [tok_names tok_sent tok_text] in *. rewrite H1, H2, H3, H4.
+      cbn [ast_names ast_string]. rewrite part_names_noncap, part_string_noncap.
+      rewrite (ast_names_app ps0 (ast_names body [])). split.
+      * now rewrite <- !app_assoc.
       * cbn [append]. now rewrite !sapp_assoc.
     + (* OBrack *)
       destruct (parts f ts) as [[body r1]|] eqn:Ep1; [|discriminate].
@@ -127,12 +144,14 @@ Proof.
   unfold re_plan. intros H. destruct (lex_re re) as [ts|]; [|discriminate]. exists ts. split; [reflexivity|].
   unfold parse_toks in H. destruct (parts (S (List.length ts)) ts) as [[ps rest]|] eqn:Ep; [|discriminate].
   destruct ps as [|p ps]; [discriminate|]. destruct rest; [|discriminate].
-  destruct (ast_nil_tail (p :: ps)); [discriminate|]. injection H as <- <-.
+  injection H as <- <-.
   destruct (parts_spec _ _ _ _ Ep) as [H1 H2]. cbn [tok_names tok_sent] in H1, H2.
   rewrite app_nil_r in H1. rewrite sapp_nil_r in H2. now split.
 Qed.
 
 (* a group nested in a NAMED group comes after it: the order that the seeded change C07-c (names appended when the group
    closes) breaks *)
+Example noncapturing_names : re_plan "(?i)(?P<a>(?:x|y)+)(?P<b>)" = Some ("(?i)((?:x|y)+)()", ["a"; "b"]).
+Proof. reflexivity. Qed.
 Example nested_names : re_plan "(?P<ip>(?P<n>\d+)\.\d+) (x)" = Some ("((\d+)\.\d+) (x)", ["ip"; "n"; ""]).
 Proof. reflexivity. Qed.
